@@ -79,6 +79,8 @@ def record_system(spec):
     rng = np.random.default_rng(spec["seed"])
     q, N, fs = spec["q"], spec["N"], 2.0
     X = [rng.standard_normal(N) for _ in range(q)]
+    if spec.get("corr"):                                           # strongly correlated inputs (condition number 1e8): every term of the residual formula matters
+        X = [X[0]] + [X[0] + 1e-4 * x for x in X[1:]]
     if spec.get("drift"):                                          # non-stationary inputs: any re-weighting of segments shows
         X = [x * np.linspace(0.5, 1.5, N) ** (i + 1) for i, x in enumerate(X)]
     for i in range(1, q):
@@ -116,7 +118,7 @@ def record_system(spec):
             Xm = [sum(A[i, k] * X[k] for k in range(q)) for i in range(q)]
             _, a = systems.MISO_analytic_optimal_spectral_analysis(Xm, y, fs, **kw) if q <= 3 else systems.MISO_numeric_optimal_spectral_analysis(Xm, y, fs, **kw)
             add(a, "same", "remixed")
-            if not spec.get("offset"):      # (with undetrended offsets the inputs are nearly collinear near DC: rescaling ONE input moves the
+            if not spec.get("offset") and not spec.get("corr"):      # (with undetrended offsets the inputs are nearly collinear near DC: rescaling ONE input moves the
                 Xs = [X[0] * 1e-6] + X[1:]  #  ill-conditioned numeric solution by more than the comparison allows)
                 _, a = systems.MISO_numeric_optimal_spectral_analysis(Xs, y, fs, **kw)
                 add(a, "same", "rescaled_numeric")
@@ -161,8 +163,9 @@ def record_system(spec):
                 continue
             _, a = fn(X, yz, fs, **kw)
             for j in range(nf):
-                ev.append({"v": "exact_" + label, "j": j + 1, "K": K[j], "kind": "zero", "r": traces.q(float(a[j]) ** 2 / float(gz[j])) if gz[j] > 0 else 0})
-    return {"meta": dict(spec), "c": {"q": q}, "ev": ev}
+                ev.append({"v": "exact_" + label, "j": j + 1, "K": K[j], "kind": "zero", "r": traces.q(float(a[j]) ** 2 / float(gz[j])) if gz[j] > 0 else 0,
+                           "r30": traces.q(float(a[j]) ** 2 / float(gz[j]), 2 ** 30) if gz[j] > 0 else 0})
+    return {"meta": dict(spec), "c": {"q": q, "kmin": 64 if spec.get("corr") else q}, "ev": ev}
 
 
 def run(tier):
@@ -190,6 +193,9 @@ def run(tier):
     for k in range(4 if tier == "quick" else 12):          # no detrending, records with DC offsets, both backends
         specs.append(dict(seed=rnd.randrange(2 ** 31), q=[1, 2, 2, 3][k % 4], N=3000, sched=["ltf", "vectorized_ltf"][k % 2], order=-1, Lmin=1,
                           backend=["numpy", "numba"][(k // 2) % 2], offset=True))
+    for k in range(2 if tier == "quick" else 8):           # nearly collinear inputs
+        specs.append(dict(seed=rnd.randrange(2 ** 31), q=2, N=4000, sched="ltf", order=[0, 1][k % 2], Lmin=32, backend=["numba", "numpy"][k % 2], corr=True))
+        # (q = 2 only: three inputs that are all copies of one to 1e-4 have a condition number beyond double precision)
     for o in ((1,) if tier == "quick" else (0, 1, 2)):
         specs.append(dict(seed=rnd.randrange(2 ** 31), q=2, N=60000, sched="ltf", order=o, Lmin=1, backend="numpy", Jdes=10, drift=True))
     trs = common.pmap(record_system, specs, chunksize=1)
